@@ -35,3 +35,22 @@ func SelectCount() int { return int(runtime.VfxSelectCount()) }
 
 // Goid returns the id of the calling goroutine.
 func Goid() uint64 { return runtime.VfxGoid() }
+
+// Classes of synchronisation points at which SetSync can preempt.
+const (
+	SyncMutex = 1 // before Lock/RLock, after Unlock/RUnlock (verifldep wrappers)
+	SyncSpawn = 2 // after a go statement (the new goroutine runs first)
+	SyncChan  = 4 // before a channel send/receive/close, a select
+)
+
+// SetSync arms one preemption: at the at-th synchronisation point from now (of
+// the classes in mask) at which another goroutine of the bubble is runnable,
+// the running goroutine yields the processor and goes to the back of the run
+// queue. at=0 only counts. The count restarts.
+func SetSync(at int, mask uint32) { runtime.VfxSetSync(uint32(at), mask) }
+
+// SyncCount returns the number of such points since SetSync.
+func SyncCount() int { return int(runtime.VfxSyncCount()) }
+
+// SyncPoint is called by the mutex wrappers (class SyncMutex).
+func SyncPoint() { runtime.VfxSyncPoint() }
